@@ -166,13 +166,31 @@ func vc15FaultAct(t *vcTrial, act string, r *vfRng, tmp string, unixPath func() 
 			m.Pick()
 		}
 		pick()
-		site := []int{vfltEpollCreate, vfltEpollCtlAdd}[r.intn(2)]
-		ru := vcFaultRuleFor(r, site, -1)
-		ru.Count = 1
-		p := arm(ru)
-		m.SetNumLoops(r.rng(2, 7))
-		pick()
-		disarm(p)
+		if r.chance(35) {
+			// real exhaustion instead of an injected errno: exactly one descriptor slot is left when the
+			// next poller is opened, so epoll_create succeeds and the eventfd behind it fails (there is
+			// no wrapper around eventfd2 to inject at)
+			var lim syscall.Rlimit
+			if syscall.Getrlimit(syscall.RLIMIT_NOFILE, &lim) == nil {
+				probe, _ := syscall.Dup(0)
+				syscall.Close(probe)
+				low := syscall.Rlimit{Cur: uint64(probe + 1), Max: lim.Max}
+				if syscall.Setrlimit(syscall.RLIMIT_NOFILE, &low) == nil {
+					m.SetNumLoops(r.rng(2, 7))
+					pick()
+					syscall.Setrlimit(syscall.RLIMIT_NOFILE, &lim)
+					t.Stat("poller_open_under_rlimit", 1)
+				}
+			}
+		} else {
+			site := []int{vfltEpollCreate, vfltEpollCtlAdd}[r.intn(2)]
+			ru := vcFaultRuleFor(r, site, -1)
+			ru.Count = 1
+			p := arm(ru)
+			m.SetNumLoops(r.rng(2, 7))
+			pick()
+			disarm(p)
+		}
 		if r.chance(50) {
 			m.SetNumLoops(1)
 			pick()
